@@ -950,7 +950,7 @@ class _SubT:
     def cases(self, tier, seed):
         names = ["ldl", "udu", "sqrt_correct", "sqrt_covariance_predict", "rk4"]
         pairs = [(x, x) for x in names] + [("ldl", "udu"), ("sqrt_correct", "sqrt_covariance_predict"), ("rk4", "sqrt_correct")]
-        return [dict(sub="threads", pair=list(p), bound=(1 if tier == "quick" else 2), max_runs=(4000 if tier == "quick" else 40000), tier=tier) for p in pairs]
+        return [dict(sub="threads", pair=list(p), bound=(1 if tier == "quick" else 2), max_runs=(4000 if tier == "quick" else 8000), tier=tier) for p in pairs]
 
     def run(self, case):
         return explore_threads(case)
